@@ -168,6 +168,58 @@ with defer_free_f (f : form) : bool :=
   | _ => true
   end.
 
+(* syntactic shape of the one kept finding: a closure [{ defer { d }; r }] whose
+   deferred call can cancel while its body can fail (Closure.Call then keeps the
+   body's exception and drops the interrupt).  [defer_ok] = no such closure
+   anywhere in the program; the runner computes the same predicate for the class
+   sync-cancel-in-defer-of-failing-closure. *)
+Fixpoint cancels (c : chunk) : bool :=
+  match c with
+  | CNil => false
+  | CCons f r => cancels_f f || cancels r
+  end
+with cancels_f (f : form) : bool :=
+  match f with
+  | FCancel => true
+  | FCall b => cancels b
+  | FTry b _ c _ f => cancels b || cancels c || cancels f
+  | FEach _ b => cancels b
+  | FWhile _ b => cancels b
+  | FDefer d r => cancels d || cancels r
+  | _ => false
+  end.
+
+Fixpoint fails (c : chunk) : bool :=
+  match c with
+  | CNil => false
+  | CCons f r => fails_f f || fails r
+  end
+with fails_f (f : form) : bool :=
+  match f with
+  | FFail _ => true
+  | FCall b => fails b
+  | FTry b _ c _ f => fails b || fails c || fails f
+  | FEach _ b => fails b
+  | FWhile _ b => fails b
+  | FDefer d r => fails d || fails r
+  | _ => false
+  end.
+
+Fixpoint defer_ok (c : chunk) : bool :=
+  match c with
+  | CNil => true
+  | CCons f r => defer_ok_f f && defer_ok r
+  end
+with defer_ok_f (f : form) : bool :=
+  match f with
+  | FCall b => defer_ok b
+  | FTry b _ c _ f => defer_ok b && defer_ok c && defer_ok f
+  | FEach _ b => defer_ok b
+  | FWhile _ b => defer_ok b
+  | FDefer d r => (negb (cancels d) || negb (fails r)) && defer_ok d && defer_ok r
+  | _ => true
+  end.
+
 (* ---- observations ---- *)
 Inductive res := ROk | RInt | RFail (id : N) | ROther.
 Definition res_eqb (a b : res) : bool :=
